@@ -105,11 +105,11 @@ Proof.
   apply wf_entryb_ok. vm_compute. reflexivity.
 Qed.
 
-(* FINDING (host_boot_id_unreadable): with the call of sd_id128_get_boot in get_monotonic_usec
-   ([cfg_mono_needs_host] = true: the source at the time of writing; [set_needs_host true] keeps the
-   statement about that code after a repair) the renderings that show the monotonic time depend on the
-   HOST although the journal file holds the value: short-monotonic prints a blank field, export drops
-   __MONOTONIC_TIMESTAMP (fields NOT intact), verbose drops the same line *)
+(* FINDING host_boot_id_unreadable (repaired in /repo ab7eeab4; regression lemma about the code before the
+   repair, [set_needs_host true]): with the call of sd_id128_get_boot in get_monotonic_usec the renderings
+   that show the monotonic time depended on the HOST although the journal file holds the value:
+   short-monotonic printed a blank field, export dropped __MONOTONIC_TIMESTAMP (fields NOT intact),
+   verbose dropped the same line *)
 Definition cfg_with_host_call : jcfg := set_needs_host true src_cfg.
 
 Lemma host_dependence_refuted_l :
@@ -134,9 +134,10 @@ Lemma host_independent_repaired_l off b1 b2 o e :
   next_entry (set_needs_host false src_cfg) (mkEnv off b1) o e = next_entry (set_needs_host false src_cfg) (mkEnv off b2) o e.
 Proof. apply host_independent_all_l. reflexivity. Qed.
 
-(* FINDING (verbose_multivalued_field): next_verbose collects the data objects in a HashMap keyed by the
-   field name, so of a field with several values (SYSLOG_FACILITY=DHCP4 and SYSLOG_FACILITY=DHCP6 in
-   8 entries of the Ubuntu 16 fixture) only the last one is printed; journalctl -o verbose and the export
+(* FINDING verbose_multivalued_field (repaired in /repo 98ec3000; regression lemma about the code before
+   the repair, [set_verbose_multi false]): next_verbose collected the data objects in a HashMap keyed by
+   the field name, so of a field with several values (SYSLOG_FACILITY=DHCP4 and SYSLOG_FACILITY=DHCP6 in
+   8 entries of the Ubuntu 16 fixture) only the last one was printed; journalctl -o verbose and the export
    rendering show all of them *)
 Lemma infixb_complete a : forall b, infix a b -> infixb a b = true.
 Proof.
@@ -155,9 +156,11 @@ Definition w_entry_multi : entry :=
            (s2b "SYSLOG_FACILITY", s2b "DHCP6"); (s2b "SYSLOG_IDENTIFIER", s2b "dhclient");
            (s2b "MESSAGE", s2b "DHCPREQUEST of 192.168.1.5 on enp0s3"); (s2b "_HOSTNAME", s2b "fink")].
 
+Definition cfg_with_hashmap : jcfg := set_verbose_multi false src_cfg.
+
 Lemma verbose_multivalued_refuted_l :
   exists e k v b ev, wf_entry e /\ In (k, v) (e_fields e) /\
-    next_entry src_cfg ev OVerbose e = NFound b /\ ~ infix (vline src_cfg k v) b /\
+    next_entry cfg_with_hashmap ev OVerbose e = NFound b /\ ~ infix (vline cfg_with_hashmap k v) b /\
     infix (print_field_safe (k, v)) (render_export e).
 Proof.
   exists w_entry_multi, (s2b "SYSLOG_FACILITY"), (s2b "DHCP4").
@@ -168,6 +171,13 @@ Proof.
   - intro H. apply infixb_complete in H. vm_compute in H. discriminate.
   - apply export_field_l. vm_compute. do 2 right. left. reflexivity.
 Qed.
+
+(* the repaired next_verbose (every data object kept): both values are in the text *)
+Example verbose_multivalued_repaired :
+  cfg_verbose_multi (set_verbose_multi true src_cfg) = true /\
+  exists b, next_entry (set_verbose_multi true src_cfg) (mkEnv 0%Z true) OVerbose w_entry_multi = NFound b /\
+            infixb (s2b "    SYSLOG_FACILITY=DHCP4" ++ [NL] ++ s2b "    SYSLOG_FACILITY=DHCP6" ++ [NL]) b = true.
+Proof. split; [reflexivity|]. eexists. split; vm_compute; reflexivity. Qed.
 
 (* the hypotheses of message_verbatim_l are satisfiable *)
 Example message_verbatim_example :
@@ -212,16 +222,16 @@ Proof.
   apply distinctb_NoDup. vm_compute. reflexivity.
 Qed.
 
-(* verbose of the witness: order table first (_TRANSPORT ... MESSAGE ... SYSLOG_*, __MONOTONIC_TIMESTAMP), then
-   _SOURCE_REALTIME_TIMESTAMP *)
+(* verbose of the witness under a small order table: table names first (all their values, in enumeration
+   order), the rest sorted, _SOURCE_REALTIME_TIMESTAMP last *)
 Example verbose_order_example :
-  next_entry src_cfg (mkEnv 0%Z true) OVerbose w_entry1
+  next_entry (set_order [s2b "_PID"; s2b "MESSAGE"; s2b "__MONOTONIC_TIMESTAMP"] src_cfg) (mkEnv 0%Z true) OVerbose w_entry1
   = NFound (s2b "Fri 2023-12-15 23:44:03.814918 +00:00 [s=301da6bc860f44808d5e36ddb58400db;i=6bd;b=1809e3bbbb334d62937ce8827b16b5f0;m=3217e43cc;t=60c94f9ace606;x=4e442f8e0c086ec5]" ++ [NL]
-            ++ s2b "    _TRANSPORT=syslog" ++ [NL] ++ s2b "    _HOSTNAME=fink" ++ [NL] ++ s2b "    PRIORITY=6" ++ [NL]
-            ++ s2b "    _PID=1170" ++ [NL] ++ s2b "    _COMM=rtkit-daemon" ++ [NL]
+            ++ s2b "    _PID=1170" ++ [NL]
             ++ s2b "    MESSAGE=Demoting known real-time threads." ++ [NL]
-            ++ s2b "    SYSLOG_IDENTIFIER=rtkit-daemon" ++ [NL] ++ s2b "    SYSLOG_PID=1170" ++ [NL]
             ++ s2b "    __MONOTONIC_TIMESTAMP=13446824908" ++ [NL]
+            ++ s2b "    PRIORITY=6" ++ [NL] ++ s2b "    SYSLOG_IDENTIFIER=rtkit-daemon" ++ [NL] ++ s2b "    SYSLOG_PID=1170" ++ [NL]
+            ++ s2b "    _COMM=rtkit-daemon" ++ [NL] ++ s2b "    _HOSTNAME=fink" ++ [NL] ++ s2b "    _TRANSPORT=syslog" ++ [NL]
             ++ s2b "    _SOURCE_REALTIME_TIMESTAMP=1702683843818187" ++ [NL]).
 Proof. vm_compute. reflexivity. Qed.
 
